@@ -118,6 +118,13 @@ def run(ctx):
                 bad += 1
                 if bad <= 6:
                     rep.tie_break("correspondence", "Lex.decodeImpl vs single_literal", {"token": t, "real": real, "model": a})
+                # the known defects of the decoder are exactly "the body is evaluated like a Python string literal" (the
+                # model): a result that is neither the written text nor that evaluation is a different violation
+                written = t[1:-1].replace("''", "'")
+                if real != {"ok": written}:
+                    rep.finding("str:decoding-differs-from-python-evaluation",
+                                "single_literal(%r) = %r ; written %r ; Python evaluation of the body gives %r" % (t[:60], real, written[:60], a),
+                                {"kind": "parse-string", "sql": "select " + t, "dialect": "common", "expected": {"ok": C.canon({"select": {"value": {"literal": written}}})}})
         # the token regex itself: arbitrary text after an opening quote
         pat = re.compile(dict(ctx.gen["lex_patterns"])["ansi_string"])
         raw = ["'" + s + rng.choice(["", "'", "' x", "''", "'y'"]) for s in sample[: len(sample) // 2]]
